@@ -12,6 +12,7 @@ import (
 	"go/token"
 	"go/types"
 	"strconv"
+	"strings"
 )
 
 func (fc *FuncCtx) evalIntrinsic(st *State, call *ast.CallExpr, fn *types.Func, spec []string) []Term {
@@ -25,6 +26,9 @@ func (fc *FuncCtx) evalIntrinsic(st *State, call *ast.CallExpr, fn *types.Func, 
 			}
 		}
 		return []Term{fc.binRead(st, call, call.Args[si], call.Args[di])}
+	}
+	if strings.HasPrefix(spec[0], "js") {
+		return fc.jsonWrite(st, call, fn, spec[0])
 	}
 	if spec[0] == "havocptr" {
 		// the callee may write anything through the pointer argument (reflection-based decoders)
